@@ -26,6 +26,8 @@ import (
 
 	"github.com/gofrs/uuid"
 
+	// the prunner binary links the HTTP server, whose init configures a JSON time format: the store must behave the same with it
+	_ "github.com/Flowpack/prunner/server"
 	"github.com/Flowpack/prunner/store"
 
 	"verifharness/hutil"
@@ -197,7 +199,7 @@ func modeSeq(dir string, seed uint64, n int, w *os.File) {
 			if d.Jobs[k].Variables == nil {
 				d.Jobs[k].Variables = map[string]interface{}{}
 			}
-			d.Jobs[k].Variables["bad"] = []interface{}{math.NaN(), math.Inf(1), make(chan int)}[rng.Intn(3)]
+			d.Jobs[k].Variables["bad"] = []interface{}{math.NaN(), math.Inf(1), make(chan int), json.RawMessage("{\"a\": [1, }")}[rng.Intn(4)]
 		}
 		err := st.Save(d)
 		if err == nil && class == "ok" {
@@ -219,7 +221,9 @@ func modeSeq(dir string, seed uint64, n int, w *os.File) {
 				r.OK, r.What = false, "jobs loaded although no save succeeded"
 			}
 		case r.Class == "accepted-odd":
-			// NaN etc. do not compare equal to themselves; only loadability is required
+			// NaN etc. do not compare equal to themselves (and an invalid raw message is stored as null); only loadability is
+			// required, and what was loaded is the reference for the saves that follow
+			last = got
 		case !reflect.DeepEqual(canon(got), canon(last)):
 			r.OK, r.What = false, fmt.Sprintf("after save #%d (%s, save error: %v) the load does not return the last successfully saved snapshot", i, class, err)
 			a, _ := json.Marshal(canon(last))
